@@ -85,7 +85,7 @@ func checkReuse(c reuseCase) error {
 		if lerr != nil {
 			return nil
 		}
-		if serr := sig.Sign(ref.DetSigner{Key: priv}, libSet); serr != nil {
+		if serr := sig.Sign(ref.RandCheckedSigner{Inner: ref.DetSigner{Key: priv}}, libSet); serr != nil {
 			return pbt.Errf("call %d of Sign on one RRSIG value failed: %v (owner %s)", i+1, serr, wm.EscName(set[0].Name))
 		}
 		if wantTTL == 0 {
